@@ -1792,14 +1792,23 @@ type requiredLandmarkMatch struct {
 }
 
 func findNextRequiredLandmarkRunes(input []rune, startAt, endAt int, landmark syntax.RequiredLandmark) (requiredLandmarkMatch, bool) {
-	for i := startAt; i < endAt; i++ {
+	// The occurrence with the earliest start gives the candidate position, but the rest of the chain must be
+	// searched from the earliest end any occurrence of any alternative allows: a shorter alternative, at the
+	// same place or further right, may end before the first one found does.
+	var best requiredLandmarkMatch
+	found := false
+	for i := startAt; i < endAt && (!found || i < best.End); i++ {
 		for _, alt := range landmark.Alternatives {
 			if match, ok := requiredLandmarkAlternativeMatch(input, i, endAt, alt); ok {
-				return match, true
+				if !found {
+					best, found = match, true
+				} else if match.End < best.End {
+					best.End = match.End
+				}
 			}
 		}
 	}
-	return requiredLandmarkMatch{}, false
+	return best, found
 }
 
 func requiredLandmarkAlternativeMatch(input []rune, start, endAt int, alt syntax.RequiredLandmarkAlternative) (requiredLandmarkMatch, bool) {
